@@ -36,7 +36,7 @@ QUERY_TIMEOUT_MS = {"quick": 30000, "thorough": 60000}
 
 def bounds(tier):
     return {"files n": [1, 2, 3] if tier == "quick" else [1, 2, 3, 4, 5, 6], "curves per file": "1..3", "progress calls per file": 2 if tier == "quick" else 4,
-            "curve states": ["unfitted", "unsuccessful", "fitted", "fitted+rated", "refitted"]}
+            "curve states": ["unfitted", "unsuccessful", "fitted", "fitted+rated", "fitted+rated-with-other-settings", "refitted"]}
 
 
 def tasks(tier):
@@ -48,7 +48,7 @@ def tasks(tier):
     for sc in (False, True):
         for tp in (False, True):
             ts.append({"name": f"append:spring={sc}:tip={tp}", "fn": "t_append", "args": {"sc": sc, "tp": tp}})
-    for st in ("unfitted", "unsuccessful", "fitted", "fitted+rated", "refitted"):
+    for st in ("unfitted", "unsuccessful", "fitted", "fitted+rated", "fitted+rated-with-other-settings", "refitted"):
         ts.append({"name": f"qmap:{st}", "fn": "t_qmap", "args": {"state": st}, "witnesses": ["feature"]})
     return ts
 
@@ -178,8 +178,21 @@ def t_qmap(state):
         P["E"].value, P["contact_point"].value = E, cp
         if state != "unsuccessful":
             dict.__setitem__(fp, "params_fitted", P)
-    if state == "fitted+rated":
-        c._rating = ("h", "Extra Trees", "zef18", None, None, rt)
+    rated = state.startswith("fitted+rated")
+    if rated:
+        # the curve's current rating, computed for its current fit (hash "h") with
+        # the default or with other rating settings; a rater built now would
+        # return some other value
+        dict.__setitem__(fp, "hash", "h")
+        rating0 = (("h", "Extra Trees", "zef18", None, None, rt) if state == "fitted+rated"
+                   else ("h", "AdaBoost", "/my/training/set", ["feat_con_apr_sum", "feat_bin_size"], True, rt))
+        c._rating = rating0
+        other = real("another_rating")
+
+        class _Rater:
+            def rate(self, datasets=None, **k):
+                return [other]
+        w.modules["nanite.indent"].get_rater = lambda **k: _Rater()
 
     def call(f):
         with warnings.catch_warnings(record=True) as wl:
@@ -190,14 +203,16 @@ def t_qmap(state):
     vC, wC = call(qm.QMap.feat_fit_contact_point)
     vR, wR = call(qm.QMap.feat_meta_rating)
     witness("feature")
-    fitted = state in ("fitted", "fitted+rated", "refitted")
+    fitted = state in ("fitted", "fitted+rated", "fitted+rated-with-other-settings", "refitted")
     if fitted:
         prove("modulus-in-Pa", same(vE, E) and not wE)
         prove("contact-point-in-nm", same(vC, cp * 10**9) and not wC)
     else:
         prove("nan-and-warning-when-not-fitted", is_nan(vE) and is_nan(vC) and len(wE) == 1 and len(wC) == 1)
-    if state == "fitted+rated":
+    if rated:
         prove("cached-rating", same(vR, rt) and not wR)
+        prove("curve-rating-not-overwritten", c._rating is rating0 or
+              (tuple(c._rating[:5]) == tuple(rating0[:5]) and same(c._rating[5], rt)))
     else:
         prove("nan-and-warning-when-unrated", is_nan(vR) and len(wR) == 1)
     if state == "refitted":
@@ -289,21 +304,30 @@ if state != "unfitted":
     dict.__setitem__(fp, "success", state != "unsuccessful")
     P = models_available["hertz_para"].get_parameter_defaults(); P["E"].value = E; P["contact_point"].value = cp
     if state != "unsuccessful": dict.__setitem__(fp, "params_fitted", P)
-if state == "fitted+rated": c._rating = ("h", "Extra Trees", "zef18", None, None, rt)
+rated = state.startswith("fitted+rated")
+if rated:
+    dict.__setitem__(fp, "hash", "h")
+    c._rating = ("h", "Extra Trees", "zef18", None, None, rt) if state == "fitted+rated" else ("h", "AdaBoost", "/my/training/set", ["feat_con_apr_sum", "feat_bin_size"], True, rt)
+    rating0 = c._rating
+    import nanite.indent as _ind
+    class _Rater:
+        def rate(self, datasets=None, **k): return [rt + 1.25]
+    _ind.get_rater = lambda **k: _Rater()
 def call(f):
     with warnings.catch_warnings(record=True) as wl:
         warnings.simplefilter("always"); v = f(c)
     return v, [x for x in wl if issubclass(x.category, DataMissingWarning)]
 vE, wE = call(QMap.feat_fit_youngs_modulus); vC, wC = call(QMap.feat_fit_contact_point); vR, wR = call(QMap.feat_meta_rating)
 bad = []
-fitted = state in ("fitted", "fitted+rated", "refitted")
+fitted = state in ("fitted", "fitted+rated", "fitted+rated-with-other-settings", "refitted")
 if fitted:
     if vE != E or wE: bad.append("modulus %r" % vE)
     if abs(vC - cp * 1e9) > 1e-9 * abs(cp * 1e9) or wC: bad.append("contact point %r" % vC)
 else:
     if not (np.isnan(vE) and np.isnan(vC) and len(wE) == 1 and len(wC) == 1): bad.append("unfitted: %r %r" % (vE, vC))
-if state == "fitted+rated":
-    if vR != rt or wR: bad.append("rating %r" % vR)
+if rated:
+    if vR != rt or wR: bad.append("rating %r instead of the curve's %r" % (vR, rt))
+    if c._rating != rating0: bad.append("curve rating overwritten: %r" % (c._rating,))
 elif not (np.isnan(vR) and len(wR) == 1): bad.append("unrated: %r" % vR)
 if state == "refitted":
     P2 = models_available["hertz_para"].get_parameter_defaults(); P2["E"].value = E + 11; P2["contact_point"].value = cp
